@@ -817,7 +817,14 @@ func (c *compiler) evalCallExpression(node *ast.CallExpression) (interface{}, er
 					compiler: c,
 					block:    node.Block,
 				}
-				args = append(args, reflect.ValueOf(hargs))
+				harg := reflect.ValueOf(hargs)
+				if arg.Kind() == reflect.Ptr && reflect.PtrTo(harg.Type()).AssignableTo(arg) {
+					// the helper asks for a *HelperContext
+					p := reflect.New(harg.Type())
+					p.Elem().Set(harg)
+					harg = p
+				}
+				args = append(args, harg)
 				return
 			}
 
